@@ -1,4 +1,4 @@
-import DiscretModel.Lemmas.RoomSite
+import DiscretModel.Lemmas.RoomMerge
 /-
 C10 — A room means the same live, after restart, and on a peer that imports it.
 
@@ -131,6 +131,67 @@ theorem C10_import_unknown {df : Defects} {src dst dst' : Site} (hinv : SiteInv 
             exact sameAt_of_agrees ha.agrees ha'.agrees hsr hw hw' ht d
         · cases hp
 
+/-- **C10 (import by an instance that had an earlier version of the room).** The importer holds the room; what
+    it stores for it is contained in the candidate (`Covers`: it holds an earlier version); the candidate brings
+    something new and is accepted. Then the room installed means the same as the exporter's room. Holds for the
+    code as it is as well (`df` arbitrary). -/
+theorem C10_import_earlier {df : Defects} {src dst dst' : Site} (hinv : SiteInv src) (hd : src.dead = false)
+    {rid : Id} {r rd : Room} {cand old merged : RoomRow} (hm : src.getMem rid = some r)
+    (he : src.export df rid = .ok cand) (hmem : dst.getMem rid = some rd) (hst : dst.getStored rid = some old)
+    (hcov : Covers cand (exportRoom df old))
+    (hprep : prepareWithHistory df rd (exportRoom df old) cand = .ok (true, merged))
+    (hi : dst.importRoom df cand = .ok dst') :
+    ∃ r' rr, dst'.getMem rid = some r' ∧ src.getStored rid = some rr ∧
+      (TiesHarmless rr → ∀ d, r.SameAt r' d) := by
+  obtain ⟨rr, hs, ha, hw⟩ := hinv.agree _ _ hm
+  have hc : cand = exportRoom df rr := by
+    unfold Site.export at he
+    simp only [hd, Bool.false_eq_true, if_false, hs] at he
+    cases he; rfl
+  have hcid : cand.rid = rid := by rw [hc]; show rr.rid = rid; exact getStored_some hs
+  have hnod : (cand.groups.map (·.gid)).Nodup := by
+    rw [hc]; exact exportRoom_gids_nodup (agreesOrd_gids_nodup ha hw)
+  have hsame : SameRows merged cand := prepareWithHistory_sameRows hcov hnod hprep
+  unfold Site.importRoom at hi
+  split at hi
+  · cases hi
+  · rw [hcid, hmem] at hi
+    simp only [hst, hprep] at hi
+    split at hi
+    · cases hi
+    · rename_i room' hparse
+      cases hi
+      obtain ⟨ha', hw', hid'⟩ := parseRoom_agreesOrd (liftErr_ok hparse)
+      have hmid : merged.rid = rid := by
+        -- the merged row keeps the candidate's id
+        unfold prepareWithHistory at hprep
+        split at hprep
+        · cases hprep
+        · simp only at hprep
+          split at hprep
+          · cases hprep
+          · split at hprep
+            · cases hprep
+            · split at hprep
+              · cases hprep
+              · split at hprep
+                · cases hprep
+                · simp only [Except.ok.injEq, Prod.mk.injEq] at hprep
+                  rw [← hprep.2]; exact hcid
+      refine ⟨room', rr, ?_, hs, ?_⟩
+      · rw [getMem_noteInserted, getMem_setMem]
+        have : room'.id = rid := hid'.trans hmid
+        simp [this]
+      · intro ht d
+        have hsr : SameRows rr (groupsByUid df.uidOrderReversed merged) := by
+          have h1 : SameRows rr cand := by rw [hc]; exact (exportRoom_sameRows df rr).symm
+          have h2 : SameRows cand merged := hsame.symm
+          have h3 : SameRows merged (groupsByUid df.uidOrderReversed merged) :=
+            (sameRows_of_groups_perm (x := groupsByUid df.uidOrderReversed merged) (y := merged) rfl
+              (groupsByUid_perm _ _)).symm
+          exact (h1.trans h2).trans h3
+        exact sameAt_of_agrees ha.agrees ha'.agrees hsr hw hw' ht d
+
 /-- **C10 (import, in general).** Whatever an instance accepts — a new room, or a newer version of a room
     it holds — what it installs in memory is the parse of what it stores: the importer itself is consistent,
     so `C10_restart` applies to it (restart of the importer), and so does `C10_same_meaning` with any other
@@ -166,6 +227,9 @@ def imported (df : Defects) (src dst : Site) : Except MErr Site :=
   | .ok c => dst.importRoom df c
   | .error e => .error e
 
+def importedSite (df : Defects) (src : Site) : Site :=
+  match imported df src Site.empty with | .ok s => s | .error _ => Site.empty
+
 -- a reachable instance with a two-date history; user 4 can write at 2, not at 3
 example : Reachable Defects.none site2 := by
   obtain ⟨a, ha⟩ := ok_of_toBool (x := Site.empty.mutate 1 0 m1) (by decide)
@@ -183,6 +247,18 @@ example : canAt (restarted Defects.none site2) 4 1 2 .mutateSelf = true ∧
     canAt (restarted Defects.none site2) 4 1 3 .mutateSelf = false := by decide
 
 example : (imported Defects.none site2 Site.empty).toBool = true := by decide
+
+-- the hypotheses of `C10_import_earlier` are met by a non-trivial pair: a peer that imported the room after its
+-- creation (`site1`) then receives the two-date history of `site2`: its rows are covered, something new arrives
+example :
+    let dst := importedSite Defects.none site1
+    (match site2.export Defects.none 0, dst.getMem 0, dst.getStored 0 with
+      | .ok cand, some rd, some old =>
+        coversB cand (exportRoom Defects.none old) &&
+        (match prepareWithHistory Defects.none rd (exportRoom Defects.none old) cand with
+          | .ok (true, _) => true | _ => false) &&
+        (dst.importRoom Defects.none cand).toBool
+      | _, _, _ => false) = true := by decide
 
 /-! ### the code as it is (`Defects.asImplemented`): the full statement is false -/
 
@@ -288,9 +364,6 @@ example : canAt site5 4 1 1 .mutateAll = true ∧ canAt (restarted Defects.asImp
 /-- at date 1 (the date of the creation) key 1 disables admin 2: two entries of key 2 with one date -/
 def m6 : MutSpec := { rid := 0, isNew := false, date := 1, admins := [(2, false)], groups := [] }
 def site6 : Site := match site1.mutate 1 (0 + m1.size) m6 with | .ok s => s | .error _ => Site.empty
-
-def importedSite (df : Defects) (src : Site) : Site :=
-  match imported df src Site.empty with | .ok s => s | .error _ => Site.empty
 
 /-- **C10_breaks_sameDateEntries.** The guard `TiesHarmless` is needed even for the intended behaviour.
     Two entries of one key with the same date and different flags: the live instance takes the last
